@@ -3,18 +3,21 @@ import Fdo.Cbor.Item
 Rendezvous-instruction interpreter: executable model of `protocol/rv.go`
 (`ParseDeviceRvInfo`, `ParseOwnerRvInfo`, `parseDirective`, `parseURLs`), of
 `cbor.ArrayShift` (cbor/array.go) and of the typed `cbor.Unmarshal` calls these functions
-make (targets uint8, uint16, string, net.IP = []byte, protocol.Hash, time.Duration = int64).
+make (targets uint8, uint16, uint32, string, net.IP = []byte, protocol.Hash).
 
-The model mirrors the code AS IT IS, including
-  * `cbor.ArrayShift` panicking on empty input (explicit `Outcome.panic`),
-  * `cbor.Unmarshal` storing into the target BEFORE it reports trailing bytes as an error,
-    and `Decoder.Decode` resetting a slice target to the empty slice before it looks at the
-    input, while `parseURLs` ignores the error for `RVDns`/`RVIPAddress`,
-  * arrays of small integers being accepted for a `[]byte` target element by element (so a
-    failing element leaves the prefix behind),
-  * the default port of the FIRST protocol instruction sticking when a later protocol
-    instruction changes the scheme,
-  * `secs * time.Second` wrapping in int64.
+STATE: the model mirrors the code WITH the four C20 repairs applied (fix-1 … fix-4):
+  1. `cbor.ArrayShift` treats empty input like any other invalid input (it used to panic);
+  2. `RVDns`/`RVIPAddress` values are decoded into a fresh variable and used only when
+     `cbor.Unmarshal` returned no error (they used to be decoded in place with the error
+     ignored, so values with trailing bytes, partially decoded arrays and the reset of the
+     slice target leaked into the result);
+  3. `RVDelaysec` is decoded as uint32, the specification's type (it used to be int64
+     nanosecond arithmetic: negative and overflowing delays);
+  4. the default port is taken, after the loop, from the scheme finally selected (the default
+     of the first protocol instruction used to stick).
+The typed decoders still describe `cbor.Unmarshal` exactly, including that it stores into the
+target before it reports trailing bytes (`Dec.stored` vs `Dec.ok`): `RVExtRV` decodes the
+mechanism directly into the directive field.
 Core Lean only.
 -/
 namespace Fdo.Rv
@@ -160,7 +163,6 @@ def unmarshalBytes (bs : Bytes) : Dec Bytes :=
 /-! ## `cbor.ArrayShift` -/
 
 inductive Shift where
-  | panic                          -- `panic("data cannot be empty")`
   | fail                           -- `(nil, data)`
   | ok (first rest : Bytes)        -- first element raw, array of the others ++ trailing data
   deriving DecidableEq, Repr
@@ -169,11 +171,11 @@ inductive Shift where
 value itself is the length, also for the reserved values 28..31. -/
 def shiftLen (ai arg : Nat) : Nat := if 28 ≤ ai then ai else arg
 
-/-- `cbor.ArrayShift`.  `UnwrapArray` takes the additional-info value itself as the length
+/-- `cbor.ArrayShift` (empty input fails at the first read like any truncated input).
+`UnwrapArray` takes the additional-info value itself as the length
 when no argument bytes follow (so 28..31 mean 28..31 here), applies no length limit and does
 not count as a nesting level; the first element is read with `decodeRaw`. -/
 def arrayShift (data : Bytes) : Shift :=
-  if data.isEmpty then .panic else
   match decHead data with
   | none => .fail
   | some (mt, ai, arg, r) =>
@@ -228,30 +230,25 @@ inductive Outcome where
 
 /-! ### `parseURLs` -/
 
-/-- The loop variables of `parseURLs`. -/
+/-- The loop variables of `parseURLs`: `scheme, port, defaultPort, dnsAddr, ipAddr`. -/
 structure UrlAcc where
   scheme : Scheme
   port : Option Nat
+  dflt : Option Nat
   dns : Bytes
   ip : Bytes
   deriving DecidableEq, Repr
 
-def UrlAcc.init : UrlAcc := ⟨.tls, none, [], []⟩
-
-/-- `if port == "" { port = "<d>" }`. -/
-def orDefault (port : Option Nat) (d : Nat) : Option Nat :=
-  match port with
-  | some p => some p
-  | none => some d
+def UrlAcc.init : UrlAcc := ⟨.tls, none, none, [], []⟩
 
 /-- The `switch proto` in `parseURLs`. -/
 def applyProto (p : Nat) (a : UrlAcc) : UrlAcc :=
-  if p = rvProtHTTP then { a with scheme := .http, port := orDefault a.port 80 }
-  else if p = rvProtHTTPS then { a with scheme := .https, port := orDefault a.port 443 }
-  else if p = rvProtTCP then { a with scheme := .tcp }
-  else if p = rvProtTLS then { a with scheme := .tls }
-  else if p = rvProtCoapTCP then { a with scheme := .coapTcp, port := orDefault a.port 5683 }
-  else if p = rvProtCoapUDP then { a with scheme := .coap, port := orDefault a.port 5683 }
+  if p = rvProtHTTP then { a with scheme := .http, dflt := some 80 }
+  else if p = rvProtHTTPS then { a with scheme := .https, dflt := some 443 }
+  else if p = rvProtTCP then { a with scheme := .tcp, dflt := none }
+  else if p = rvProtTLS then { a with scheme := .tls, dflt := none }
+  else if p = rvProtCoapTCP then { a with scheme := .coapTcp, dflt := some 5683 }
+  else if p = rvProtCoapUDP then { a with scheme := .coap, dflt := some 5683 }
   else a
 
 /-- One iteration of the loop in `parseURLs`. -/
@@ -267,30 +264,28 @@ def urlStep (dev : Bool) (a : UrlAcc) (i : RvInstr) : UrlAcc :=
       | some p => { a with port := some p }
       | none => a
   else if i.var = rvDns then
-    -- `_ = cbor.Unmarshal(v.Value, &dnsAddr)`: whatever was stored stays
-    match (unmarshalStr i.value).stored with
+    match (unmarshalStr i.value).val with
     | some s => { a with dns := s }
     | none => a
   else if i.var = rvIPAddress then
-    -- `_ = cbor.Unmarshal(v.Value, &ipAddr)`: reset, then whatever was stored stays
-    match (unmarshalBytes i.value).stored with
+    match (unmarshalBytes i.value).val with
     | some s => { a with ip := s }
     | none => a
   else a
 
-/-- "Assemble URLs". -/
+/-- `if port == "" { port = defaultPort }`, then "Assemble URLs". -/
 def assemble (a : UrlAcc) : List Url :=
-  (if a.dns ≠ [] then [⟨a.scheme, .dns a.dns, a.port⟩] else []) ++
-  (if a.ip ≠ [] then [⟨a.scheme, .ip a.ip, a.port⟩] else [])
+  let port := match a.port with
+    | some p => some p
+    | none => a.dflt
+  (if a.dns ≠ [] then [⟨a.scheme, .dns a.dns, port⟩] else []) ++
+  (if a.ip ≠ [] then [⟨a.scheme, .ip a.ip, port⟩] else [])
 
 /-- `parseURLs(vars, device)`. -/
 def parseURLs (dev : Bool) (is : List RvInstr) : List Url :=
   assemble (is.foldl (urlStep dev) UrlAcc.init)
 
 /-! ### `parseDirective` -/
-
-/-- int64 wrap-around of `secs * time.Second`. -/
-def wrapInt64 (x : Int) : Int := (x + 9223372036854775808) % 18446744073709551616 - 9223372036854775808
 
 /-- The `switch` on the medium value. -/
 def applyMedium (m : Nat) (d : Directive) : Directive :=
@@ -309,58 +304,48 @@ def applyExt (first rest : Bytes) (d : Directive) : Directive :=
   | ⟨some s, false⟩ => { d with extMech := s }
   | ⟨none, _⟩ => d
 
-/-- What one loop iteration of `parseDirective` does. -/
-inductive Step where
-  | cont (d : Directive)
-  | drop
-  | panic (site : String)
-
-def panicArrayShift : String := "cbor.ArrayShift:empty"
-
-/-- One iteration of the loop in `parseDirective`. -/
-def dirStep (dev : Bool) (d : Directive) (i : RvInstr) : Step :=
-  if i.var = rvDevOnly then (if dev then .cont d else .drop)
-  else if i.var = rvOwnerOnly then (if dev then .drop else .cont d)
-  else if i.var = rvBypass then .cont { d with bypass := true }
+/-- One iteration of the loop in `parseDirective` (`none` = `return nil`). -/
+def dirStep (dev : Bool) (d : Directive) (i : RvInstr) : Option Directive :=
+  if i.var = rvDevOnly then (if dev then some d else none)
+  else if i.var = rvOwnerOnly then (if dev then none else some d)
+  else if i.var = rvBypass then some { d with bypass := true }
   else if i.var = rvMedium then
     match (unmarshalUint 255 i.value).val with
-    | some m => .cont (applyMedium m d)
-    | none => .cont d
+    | some m => some (applyMedium m d)
+    | none => some d
   else if i.var = rvWifiSsid then
     match (unmarshalStr i.value).val with
-    | some s => .cont { d with ssid := s }
-    | none => .cont d
+    | some s => some { d with ssid := s }
+    | none => some d
   else if i.var = rvWifiPw then
     match (unmarshalStr i.value).val with
-    | some s => .cont { d with pass := s }
-    | none => .cont d
+    | some s => some { d with pass := s }
+    | none => some d
   else if i.var = rvExtRV then
     match arrayShift i.value with
-    | .panic => .panic panicArrayShift
-    | .fail => .cont d
-    | .ok first rest => .cont (applyExt first rest d)
+    | .ok first rest => some (applyExt first rest d)
+    | .fail => some d
   else if i.var = rvDelaysec then
-    match (unmarshalInt64 i.value).val with
-    | some s => .cont { d with delay := wrapInt64 (s * 1000000000) }
-    | none => .cont d
+    match (unmarshalUint 4294967295 i.value).val with
+    | some s => some { d with delay := (s : Int) * 1000000000 }
+    | none => some d
   else if i.var = rvSvCertHash then
     match (unmarshalHash i.value).val with
-    | some h => .cont { d with svCert := some h }
-    | none => .cont d
+    | some h => some { d with svCert := some h }
+    | none => some d
   else if i.var = rvClCertHash then
     match (unmarshalHash i.value).val with
-    | some h => .cont { d with clCert := some h }
-    | none => .cont d
-  else .cont d
+    | some h => some { d with clCert := some h }
+    | none => some d
+  else some d
 
 /-- The loop of `parseDirective`. -/
 def dirLoop (dev : Bool) : Directive → List RvInstr → Outcome
   | d, [] => .ok d
   | d, i :: is =>
     match dirStep dev d i with
-    | .cont d' => dirLoop dev d' is
-    | .drop => .dropped
-    | .panic s => .panic s
+    | some d' => dirLoop dev d' is
+    | none => .dropped
 
 /-- `parseDirective(vars, device)`. -/
 def parseDirective (dev : Bool) (is : List RvInstr) : Outcome :=
